@@ -201,3 +201,15 @@ Theorem C14_admitted_point_not_expired_under_skew : forall d nowsec t e storenow
   expired d e storenow = false.
 Proof. exact admitted_not_expired_skew. Qed.
 Print Assumptions C14_admitted_point_not_expired_under_skew.
+
+(* -- write admission of a batch (tied to the real coordinator on every run) -- *)
+(* the threshold: a row is admitted iff its timestamp is not below min_time, fixed per batch from the duration the
+   policy had when the batch looked it up *)
+Theorem C14_admission_threshold : forall d nowsec t, write_accept d nowsec t = negb (t <? min_time d nowsec).
+Proof. exact write_accept_min_time. Qed.
+(* for a limited policy: exactly the points of the window [now - d, ..) are admitted; for each admitted point the shard
+   group that receives it (end > t) is not expired at that clock reading *)
+Theorem C14_admitted_point_in_live_group : forall d nowsec t e,
+  0 < d -> write_accept d nowsec t = true -> t < e -> expired d e (nowsec * 1000000000) = false.
+Proof. intros d nowsec t e Hd Ha Ht. apply (admitted_not_expired_skew d nowsec t e); auto; lia. Qed.
+Print Assumptions C14_admitted_point_in_live_group.
